@@ -88,6 +88,11 @@ def replay(rep, runs, binaries, what, prop, gc="default", known_ok=True):
         for r in usable:
             msg = mrun.compare(r, impl[r["id"]])
             ncmp += 1
+            if not r["trig"] and isinstance(impl[r["id"]], dict) and impl[r["id"]].get("uaf", 0) > 0:
+                rep.violation("%s (%s build): %d accesses to objects the collector had already reclaimed (quarantine hook)%s"
+                              % (what, bname, impl[r["id"]]["uaf"], "; also: " + msg if msg else ""),
+                              {"source": src_of(r["prog"]), "impl": {k: impl[r["id"]][k] for k in impl[r["id"]] if k != "events"}})
+                continue
             if not msg and not r["trig"]:
                 msg = mrun.compare_heap(r, impl[r["id"]], base)
                 if r.get("heap", {}).get("exact"):
